@@ -92,7 +92,17 @@ def single_defs(fn_node):
                     counts[x.id] = counts.get(x.id, 0) + 2
         elif isinstance(n, ast.NamedExpr):
             counts[n.target.id] = counts.get(n.target.id, 0) + 2
-    return {k: v for k, v in vals.items() if counts.get(k) == 1 and k not in params}
+    out = {k: v for k, v in vals.items() if counts.get(k) == 1 and k not in params}
+    # a local assigned several times, always by the same expression, is as good as one definition
+    multi = {}
+    for n in walk_no_nested(fn_node):
+        if isinstance(n, ast.Assign) and len(n.targets) == 1 and isinstance(n.targets[0], ast.Name):
+            multi.setdefault(n.targets[0].id, []).append(n.value)
+    for k, vs in multi.items():
+        if k not in out and k not in params and len(vs) > 1 and counts.get(k) == len(vs) and \
+                len({ntext(v) for v in vs}) == 1:
+            out[k] = vs[0]
+    return out
 
 
 class _Expand(ast.NodeTransformer):
